@@ -8,7 +8,7 @@ CONSTANTS
   MaxLen = 14
   PairIds = {6, 7, 8, 9}
   CfgIds = {1, 2, 3, 4, 5, 6, 7, 8, 9, 10, 11, 12, 13, 14, 15, 16, 17, 18}
-  Stride = 24
+  Stride = 14
 INIT Init
 NEXT Next
 INVARIANTS DirectThm RCThm RotThm ResThm SoundThm BoundsThm BudgetThm FlankThm CircThm VerdictThm Export
